@@ -143,10 +143,10 @@ def sunCoin (digest : Bytes) (round : Nat) : Option Bool := do
     indB := indB ||| (b <<< j)
   let ba ← sunBit digest round
   let bb ← sunBit digest ((round + 64) % 4294967296)
-  let indA := (indA >>> ba) &&& 0x7F
-  let indB := (indB >>> bb) &&& 0x7F
-  let x ← sunBit digest indA
-  let y ← sunBit digest indB
+  let fA := (indA >>> ba) &&& 0x7F
+  let fB := (indB >>> bb) &&& 0x7F
+  let x ← sunBit digest fA
+  let y ← sunBit digest fB
   pure ((x ^^^ y) == 1)
 
 def sunRounds (H : Bytes → Bytes) (phrase : Bytes) : Nat → Bytes → Option Bytes
